@@ -937,6 +937,17 @@ def get_code(node: ast.AST | Range, source: str) -> str:
 
 
 def literal_value(node: ast.AST) -> bool:
+    """Evaluate a constant expression. Raises ValueError if it has no known constant value."""
+    try:
+        return _literal_value(node)
+    except ValueError:
+        raise
+    except Exception as error:
+        # E.g. 1 / 0 or 1 < "a": evaluating the expression raises, so it has no value.
+        raise ValueError(f"Cannot find a deterministic value: {error!r}") from error
+
+
+def _literal_value(node: ast.AST) -> bool:
     if has_side_effect(node, safe_callable_whitelist=constants.BUILTIN_FUNCTIONS):
         raise ValueError("Cannot find a deterministic value for a node with a side effect")
 
@@ -945,6 +956,9 @@ def literal_value(node: ast.AST) -> bool:
     ):
         left = literal_value(node.left)
         right = literal_value(node.right)
+        if isinstance(node.op, (ast.Pow, ast.LShift)) and isinstance(right, int) and right > 10000:
+            raise ValueError("Value is too large to be computed")
+
         return constants.COMPARISON_OPERATORS[type(node.op)](left, right)
 
     if match_template(node, ast.Compare(left=object, ops={object}, comparators={object})):
